@@ -9,7 +9,13 @@ H2O_LOW = [4.19864056E+00, -2.03643410E-03, 6.52040211E-06, -5.48797062E-09, 1.7
 H2O_HIGH = [3.03399249E+00, 2.17691804E-03, -1.64072518E-07, -9.70419870E-11, 1.68200992E-14, -3.00042971E+04,
             4.96677010E+00]
 SHO_A = [30.09200, 6.832514, 6.793435, -2.534480, 0.082139, -250.8810, 223.3967, -241.8264]
-NAMES = ['A', 'B', 'C', 'D', 'E', 'F', 'G', 'H2O', 'CO*', 'TS1', 'TS2']
+NAME_SETS = {
+    'plain': ['A', 'B', 'C', 'D', 'E', 'F', 'G', 'H2O', 'CO*', 'TS1', 'TS2'],
+    # names that differ only in case (cobalt and carbon monoxide), and names that end in / start with one another
+    'case': ['CO', 'Co', 'co', 'H2O', 'h2o', 'OH', 'Oh', 'NO', 'No', 'TS', 'ts'],
+    'affix': ['O', 'CO', 'HCO', 'HCOO', 'H', 'OH', 'COOH', 'O2', 'CO2', 'H2', 'OH2'],
+}
+BEP_DESCRIPTORS = ['delta_H', 'rev_delta_H', 'reactants_H', 'products_H']
 QUANT = ['CvoR', 'CpoR', 'UoRT', 'HoRT', 'SoR', 'FoRT', 'GoRT', 'EoRT', 'q']
 UNCLAMPED = ['CvoR', 'CpoR', 'UoRT', 'SoR', 'FoRT', 'EoRT', 'q']     # not overridden by ChemkinReaction / SurfaceReaction
 
@@ -23,7 +29,7 @@ class WorldC08(World):
     PROBES = ('species-in-three-reactions', 'condition-dict-reused', 'block-for-one-species', 'block-for-absent-species',
               'fractional-stoichiometry', 'two-transition-state-species', 'species-on-both-sides', 'edit-then-evaluate',
               'rev-and-act', 'Keq-product', 'chemkin-unclamped', 'surface-unclamped', 'mixed-model-classes', 'q-ratio',
-              'from-string')
+              'from-string', 'bep-transition-state', 'bep-shared-by-two-reactions')
     REAL = ('pmutt.reaction.Reaction / ChemkinReaction / pmutt.omkm.reaction.SurfaceReaction getters',
             'pmutt._get_specie_kwargs / _force_pass_arguments', 'StatMech, Nasa, Shomate species')
     SIMULATED = ('1-3 clients evaluating reactions over shared species and shared, re-used condition dictionaries',)
@@ -36,7 +42,8 @@ class WorldC08(World):
                 'n_cond': rng.randint(1, 3), 'kinds': rng.choice([['StatMech'], ['Nasa'], ['StatMech', 'Nasa', 'Shomate'],
                                                                   ['StatMech', 'Nasa']]),
                 'w_eval': rng.choice([3, 5]), 'w_edit': rng.choice([0, 1, 2]),
-                'rxn_classes': rng.choice([['Reaction'], ['Reaction', 'ChemkinReaction', 'SurfaceReaction']])}
+                'rxn_classes': rng.choice([['Reaction'], ['Reaction', 'ChemkinReaction', 'SurfaceReaction']]),
+                'names': rng.choice(['plain', 'plain', 'case', 'affix']), 'n_bep': rng.choice([0, 0, 1, 2])}
 
     def n_steps(self, rng, swarm):
         return swarm['n_species'] + swarm['n_rxn'] + swarm['n_cond'] + rng.randint(5, 30)
@@ -61,6 +68,12 @@ class WorldC08(World):
         self.cond = {}     # id -> caller-owned dict
         self.cond_uses = {}
         self.edited = False
+        import pmutt.reaction.bep as bepmod
+        from pmutt import constants as pc
+        self.bepmod = bepmod
+        self.R_kcal = pc.R('kcal/mol/K')
+        self.bep = {}      # id -> BEP object (may be the transition state of several reactions)
+        self.bepm = {}     # id -> dict(slope, intercept, descriptor)
 
     # ------------------------------------------------------------------ gen
     def gen_op(self, rng):
@@ -69,12 +82,25 @@ class WorldC08(World):
         if len(self.sp) < sw['n_species']:
             kind = rng.choice(sw['kinds'])
             return {'c': c, 'op': 'mkspecies', 'args': {
-                'id': len(self.sp), 'kind': kind, 'name': NAMES[len(self.sp)], 'E': round(rng.uniform(-30, -1), 4),
+                'id': len(self.sp), 'kind': kind, 'name': NAME_SETS[sw.get('names', 'plain')][len(self.sp)], 'E': round(rng.uniform(-30, -1), 4),
                 'wn': [round(rng.uniform(100, 4000), 1) for _ in range(rng.randint(1, 4))],
                 'mw': round(rng.uniform(2, 200), 2), 'rot': [round(rng.uniform(0.05, 50), 3) for _ in range(3)],
                 'scale': round(rng.uniform(0.7, 1.3), 3), 'phase': rng.choice(['G', 'S'])}}
+        if len(self.bep) < sw.get('n_bep', 0) and len(self.sp) >= sw['n_species']:
+            return {'c': c, 'op': 'mkbep', 'args': {'id': len(self.bep), 'slope': round(rng.uniform(0, 1), 3),
+                                                    'intercept': round(rng.uniform(0, 40), 2),
+                                                    'descriptor': rng.choice(BEP_DESCRIPTORS)}}
         if len(self.rxn) < sw['n_rxn'] and (not self.rxn or rng.random() < 0.5):
             ids = sorted(self.sp)
+            if self.bep and rng.random() < 0.6:
+                # a BEP relation stands in for the transition state; one relation serves a whole family of reactions
+                ids2 = ids
+                nr, npd = rng.randint(1, min(3, len(ids2))), rng.randint(1, min(3, len(ids2)))
+                st = lambda: rng.choice([1, 1, 1, 2, 3, 0.5])
+                return {'c': c, 'op': 'mkrxn', 'args': {
+                    'id': len(self.rxn), 'cls': 'Reaction', 'reactants': [[i, st()] for i in rng.sample(ids2, nr)],
+                    'products': [[i, st()] for i in rng.sample(ids2, npd)], 'ts': [], 'bep': rng.choice(sorted(self.bep)),
+                    'from_string': False}}
             nr, npd = rng.randint(1, min(4, len(ids))), rng.randint(1, min(4, len(ids)))
             st = lambda: rng.choice([1, 1, 1, 2, 3, 4, 0.5, 0.25, 1.5])
             cls = rng.choice(sw['rxn_classes'])
@@ -116,6 +142,8 @@ class WorldC08(World):
         r = rng.choice(sorted(self.rxn))
         cls = self.rxm[r]['cls']
         q = rng.choice(QUANT if cls == 'Reaction' else UNCLAMPED)
+        if self.rxm[r].get('bep') is not None and rng.random() < 0.8:
+            q = rng.choice(['HoRT', 'SoR', 'GoRT'])
         return {'c': c, 'op': 'eval', 'args': {'rxn': r, 'cond': rng.choice(sorted(self.cond)), 'q': q,
                                                'rev': rng.random() < 0.5}}
 
@@ -173,6 +201,28 @@ class WorldC08(World):
                 scale += abs(nu * v)
         return tot, max(scale, 1.0)
 
+    def _bep_state(self, m, q, cond):
+        """Transition state of THIS reaction from a BEP relation: H_ts = H_reactants + Ea(forward), S_ts = S_reactants,
+        Ea(forward) = slope' x descriptor of this reaction + intercept (kcal/mol)."""
+        b = self.bepm[m['bep']]
+        T = cond['T']
+        Hr, s1 = self._state(m['reactants'], 'HoRT', cond)
+        Hp, s2 = self._state(m['products'], 'HoRT', cond)
+        Sr, s3 = self._state(m['reactants'], 'SoR', cond)
+        if Hr is None or Hp is None or Sr is None:
+            return None, None
+        d = b['descriptor']
+        desc = {'delta_H': Hp - Hr, 'rev_delta_H': Hr - Hp, 'reactants_H': Hr, 'products_H': Hp}[d]
+        slope = b['slope'] - 1.0 if d == 'rev_delta_H' else b['slope']
+        Ea = slope * desc + b['intercept'] / (self.R_kcal * T)
+        H = Hr + Ea
+        scale = s1 + s2 + abs(b['intercept'] / (self.R_kcal * T))
+        if q == 'HoRT':
+            return H, scale
+        if q == 'SoR':
+            return Sr, s3
+        return H - Sr, scale + s3
+
     def _close(self, got, want, scale, q):
         if not (math.isfinite(want) and abs(want) < 1e250 and (q != 'q' or abs(want) > 1e-250)):
             return True          # outside floating-point range: nothing can be demanded
@@ -191,8 +241,17 @@ class WorldC08(World):
             self.sp[a['id']] = self._mk_species(a)
             self.spk[a['id']] = a['kind']
             out = a['kind']
+        elif name == 'mkbep':
+            if a['id'] in self.bep or a['descriptor'] not in BEP_DESCRIPTORS:
+                raise Skip()
+            self.bep[a['id']] = self.real(self.bepmod.BEP, slope=a['slope'], intercept=a['intercept'],
+                                          name='BEP%d' % a['id'], descriptor=a['descriptor'], _what='BEP constructor')
+            self.bepm[a['id']] = {'slope': a['slope'], 'intercept': a['intercept'], 'descriptor': a['descriptor']}
+            out = 'bep'
         elif name == 'mkrxn':
             if a['id'] in self.rxn:
+                raise Skip()
+            if a.get('bep') is not None and (a['bep'] not in self.bep or a['ts'] or a['cls'] != 'Reaction'):
                 raise Skip()
             allm = a['reactants'] + a['products'] + a['ts']
             if any(i not in self.sp for i, _ in allm) or not a['reactants'] or not a['products']:
@@ -205,6 +264,10 @@ class WorldC08(World):
             kw = dict(reactants=R, reactants_stoich=[n for _, n in a['reactants']], products=P,
                       products_stoich=[n for _, n in a['products']], transition_state=TS,
                       transition_state_stoich=[n for _, n in a['ts']] if TS else None)
+            if a.get('bep') is not None:
+                kw.update(transition_state=[self.bep[a['bep']]], transition_state_stoich=[1])
+                if any(m.get('bep') == a['bep'] for m in self.rxm.values()):
+                    ctx.probe('bep-shared-by-two-reactions')
             if a.get('from_string') and len(set(i for i, _ in allm)) == len(allm):
                 ctx.probe('from-string')
                 fmt = lambda ms: '+'.join('%s%s' % ('' if n == 1 else repr(float(n)), self.sp[i].name) for i, n in ms)
@@ -219,7 +282,7 @@ class WorldC08(World):
                 rxn = self.real(self.orx.SurfaceReaction, _what='SurfaceReaction constructor', **kw)
             self.rxn[a['id']] = rxn
             self.rxm[a['id']] = {'reactants': [tuple(x) for x in a['reactants']], 'products': [tuple(x) for x in a['products']],
-                                 'ts': [tuple(x) for x in a['ts']], 'cls': a['cls']}
+                                 'ts': [tuple(x) for x in a['ts']], 'cls': a['cls'], 'bep': a.get('bep')}
             if any(n != int(n) for _, n in allm):
                 ctx.probe('fractional-stoichiometry')
             if len(a['ts']) == 2:
@@ -310,6 +373,14 @@ class WorldC08(World):
         states = {'reactants': m['reactants'], 'products': m['products']}
         if m['ts']:
             states['transition state'] = m['ts']
+        bep_ok = False
+        if m.get('bep') is not None and q in ('HoRT', 'SoR', 'GoRT'):
+            # the relation reads its reaction's states at the conditions it is handed; with a block addressed to a member
+            # the statement does not say which conditions those are, so the transition state is then not judged
+            if not any(b in names or b == 'BEP%d' % m['bep'] for b in blocks):
+                bep_ok = True
+                states['transition state'] = 'bep'
+                ctx.probe('bep-transition-state')
         val = {}
         worst = 0.0
 
@@ -321,7 +392,10 @@ class WorldC08(World):
             return float(out)
 
         for st, members in states.items():
-            want, scale = self._state(members, q, cond)
+            if members == 'bep':
+                want, scale = self._bep_state(m, q, cond)
+            else:
+                want, scale = self._state(members, q, cond)
             if want is None:
                 return 'n/a'
             val[st] = (want, scale)
